@@ -61,6 +61,21 @@ def check_tree(tree, key, rec=None, edits=()):
             kinds = sorted({e[0] for e in flat.values()})
             sub = "symlink" if any(e[0] == "l" for e in flat.values()) and _strip_links(ha) == _strip_links(exp) else "content"
             raise Violation(f"C19:differs-from-model:{sub}", f"{ha}", f"{exp} (entry kinds {kinds})")
+        # the same directory reached through other valid spellings of its path
+        alias = os.path.join(root, "alias")
+        os.symlink(root, alias)
+        selfl = os.path.join(root, "self-link")
+        os.symlink(a, selfl)
+        for how, sp in (("dotdot", os.path.join(root, "base", "..", "one")), ("symlinked_parent", os.path.join(alias, "one")),
+                        ("symlink_to_dir", selfl)):
+            try:
+                hs = HS.dir_hashsums(Path(sp))
+            except Exception as e:  # noqa: BLE001
+                raise Violation(f"C19:depends-on-path-spelling:{how}:raises", f"{type(e).__name__}: {str(e)[:200]}", "same tree as via the canonical path")
+            if hs != ha:
+                raise Violation(f"C19:depends-on-path-spelling:{how}", f"{hs}", f"{ha}")
+        os.unlink(alias), os.unlink(selfl)
+        classes.append("path_spellings")
         if key % 4 == 0:
             h5 = compute(a, "sha512")
             if h5 != D.expected_hashsums(tree, "sha512"):
